@@ -69,7 +69,7 @@ def _included(node, variables):
             val = getattr(v, "value", None)
         if n == "skip" and val is True:
             return False
-        if n == "include" and val is False:
+        if n == "include" and val is not True:
             return False
     return True
 
